@@ -1,5 +1,491 @@
-"""C16 - field x version: payload classes written / read under every version (filled in below)."""
+"""C16 - field x version: the payload / object / message classes that have version blocks, written and read by the
+real classes under every member of enums.KMIPVersion.
+
+write: an instance with every version-dependent field set is encoded under v; observed = did it raise, and which of the
+       version-dependent tags are children of the encoding.
+read : for each version-dependent tag t, an encoding valid under v without t gets the TTLV item of t (taken from an
+       encoding where the class emits it) spliced in at its place; observed = does read(v) accept it.
+The model answers both from the guard table regenerated from the source (Fields.v over PKGen.VersionFields).
+"""
+import struct
+
+import kdrv
+from kmip.core import enums, objects as O, primitives as P, attributes as A, utils, exceptions as kexc
+from kmip.core.messages import payloads, messages, contents
+from vlib import coqprint as cp
+
+T = enums.Tags
+KV = list(enums.KMIPVersion)
+
+
+def ver_of(kv):
+    n = kv.name.split('_')
+    return (int(n[1]), int(n[2]))
+
+
+def cver(v):
+    return '(%s, %s)' % (cp.z(v[0]), cp.z(v[1]))
+
+
+# ---------------------------------------------------------------------------------------------- TTLV helpers
+def children(buf):
+    """[(tag value, raw item bytes)] of the children of the structure encoded in buf."""
+    length = struct.unpack('!I', buf[4:8])[0]
+    body = buf[8:8 + length]
+    out = []
+    i = 0
+    while i + 8 <= len(body):
+        tag = int.from_bytes(body[i:i + 3], 'big')
+        ln = struct.unpack('!I', body[i + 4:i + 8])[0]
+        pad = (8 - ln % 8) % 8
+        out.append((tag, body[i:i + 8 + ln + pad]))
+        i += 8 + ln + pad
+    return out
+
+
+def rebuild(buf, items):
+    body = b''.join(raw for _, raw in items)
+    return buf[:4] + struct.pack('!I', len(body)) + body
+
+
+def encode(obj, kv):
+    s = utils.BytearrayStream()
+    obj.write(s, kmip_version=kv)
+    return bytes(s.buffer)
+
+
+def decode(cls_factory, data, kv):
+    obj = cls_factory()
+    obj.read(utils.BytearrayStream(data), kmip_version=kv)
+    return obj
+
+
+# ---------------------------------------------------------------------------------------------- recipes
+VARIANT = [0]
+CUR = [None]         # the version an instance is being built for (ResponseHeader carries it)
+
+
+def var(a, b):
+    """Two different contents for every version-dependent field (information-flow test of the readers)."""
+    return a if VARIANT[0] == 0 else b
+
+
+def ta(tag=T.TEMPLATE_ATTRIBUTE):
+    return O.TemplateAttribute(attributes=[kdrv.attr('CRYPTOGRAPHIC_ALGORITHM', enums.CryptographicAlgorithm.AES),
+                                           kdrv.attr('CRYPTOGRAPHIC_LENGTH', var(128, 256))], tag=tag)
+
+
+def psm(tag=T.PROTECTION_STORAGE_MASKS):
+    return O.ProtectionStorageMasks(protection_storage_masks=var([3, 768], [1, 2]), tag=tag)
+
+
+def name_value():
+    return kdrv.attr_value('NAME', kdrv.name_value(var('n1', 'n2')))
+
+
+def pick(on, **kw):
+    """kwargs whose tag (keyword -> tag name in the recipe) is switched on."""
+    return kw
+
+
+RECIPES = {}
+
+
+def recipe(cls, tags, nested=()):
+    """tags: {TAG_NAME: constructor keyword or None when the field is a mandatory alternate of another tag}."""
+    def deco(fn):
+        RECIPES[cls.__name__] = {'cls': cls, 'tags': tags, 'build': fn, 'nested': set(nested)}
+        return fn
+    return deco
+
+
+def kw(on, mapping):
+    return {k: v() for t, (k, v) in mapping.items() if t in on}
+
+
+@recipe(payloads.CreateRequestPayload, ['TEMPLATE_ATTRIBUTE', 'ATTRIBUTES', 'PROTECTION_STORAGE_MASKS'])
+def _(on):
+    return payloads.CreateRequestPayload(object_type=enums.ObjectType.SYMMETRIC_KEY, template_attribute=ta(),
+                                         protection_storage_masks=psm() if 'PROTECTION_STORAGE_MASKS' in on else None)
+
+
+@recipe(payloads.CreateResponsePayload, ['TEMPLATE_ATTRIBUTE'])
+def _(on):
+    return payloads.CreateResponsePayload(object_type=enums.ObjectType.SYMMETRIC_KEY, unique_identifier='1',
+                                          template_attribute=ta() if 'TEMPLATE_ATTRIBUTE' in on else None)
+
+
+@recipe(payloads.RegisterRequestPayload, ['TEMPLATE_ATTRIBUTE', 'ATTRIBUTES', 'PROTECTION_STORAGE_MASKS'])
+def _(on):
+    return payloads.RegisterRequestPayload(object_type=enums.ObjectType.SYMMETRIC_KEY, template_attribute=ta(),
+                                           managed_object=kdrv.secret_for(enums.ObjectType.SYMMETRIC_KEY),
+                                           protection_storage_masks=psm() if 'PROTECTION_STORAGE_MASKS' in on else None)
+
+
+@recipe(payloads.RegisterResponsePayload, ['TEMPLATE_ATTRIBUTE'])
+def _(on):
+    return payloads.RegisterResponsePayload(unique_identifier='1', template_attribute=ta() if 'TEMPLATE_ATTRIBUTE' in on else None)
+
+
+@recipe(payloads.DeriveKeyRequestPayload, ['TEMPLATE_ATTRIBUTE', 'ATTRIBUTES'])
+def _(on):
+    return payloads.DeriveKeyRequestPayload(
+        object_type=enums.ObjectType.SYMMETRIC_KEY, unique_identifiers=['1'], derivation_method=enums.DerivationMethod.HASH,
+        derivation_parameters=A.DerivationParameters(cryptographic_parameters=A.CryptographicParameters(
+            hashing_algorithm=enums.HashingAlgorithm.SHA_256), derivation_data=b'abc'),
+        template_attribute=ta())
+
+
+@recipe(payloads.DeriveKeyResponsePayload, ['TEMPLATE_ATTRIBUTE'])
+def _(on):
+    return payloads.DeriveKeyResponsePayload(unique_identifier='1', template_attribute=ta() if 'TEMPLATE_ATTRIBUTE' in on else None)
+
+
+CKP = ['COMMON_TEMPLATE_ATTRIBUTE', 'PRIVATE_KEY_TEMPLATE_ATTRIBUTE', 'PUBLIC_KEY_TEMPLATE_ATTRIBUTE', 'COMMON_ATTRIBUTES',
+       'PRIVATE_KEY_ATTRIBUTES', 'PUBLIC_KEY_ATTRIBUTES', 'COMMON_PROTECTION_STORAGE_MASKS', 'PRIVATE_PROTECTION_STORAGE_MASKS',
+       'PUBLIC_PROTECTION_STORAGE_MASKS']
+
+
+@recipe(payloads.CreateKeyPairRequestPayload, CKP)
+def _(on):
+    def opt(*names):
+        return any(n in on for n in names)
+    return payloads.CreateKeyPairRequestPayload(
+        common_template_attribute=ta(T.COMMON_TEMPLATE_ATTRIBUTE) if opt('COMMON_TEMPLATE_ATTRIBUTE', 'COMMON_ATTRIBUTES') else None,
+        private_key_template_attribute=ta(T.PRIVATE_KEY_TEMPLATE_ATTRIBUTE) if opt('PRIVATE_KEY_TEMPLATE_ATTRIBUTE', 'PRIVATE_KEY_ATTRIBUTES') else None,
+        public_key_template_attribute=ta(T.PUBLIC_KEY_TEMPLATE_ATTRIBUTE) if opt('PUBLIC_KEY_TEMPLATE_ATTRIBUTE', 'PUBLIC_KEY_ATTRIBUTES') else None,
+        common_protection_storage_masks=psm(T.COMMON_PROTECTION_STORAGE_MASKS) if opt('COMMON_PROTECTION_STORAGE_MASKS') else None,
+        private_protection_storage_masks=psm(T.PRIVATE_PROTECTION_STORAGE_MASKS) if opt('PRIVATE_PROTECTION_STORAGE_MASKS') else None,
+        public_protection_storage_masks=psm(T.PUBLIC_PROTECTION_STORAGE_MASKS) if opt('PUBLIC_PROTECTION_STORAGE_MASKS') else None)
+
+
+@recipe(payloads.EncryptRequestPayload, ['AUTHENTICATED_ENCRYPTION_ADDITIONAL_DATA'])
+def _(on):
+    return payloads.EncryptRequestPayload(unique_identifier='1', data=b'0123456789abcdef', iv_counter_nonce=b'\1' * 12,
+                                          auth_additional_data=var(b'aad', b'bbd') if 'AUTHENTICATED_ENCRYPTION_ADDITIONAL_DATA' in on else None)
+
+
+@recipe(payloads.EncryptResponsePayload, ['AUTHENTICATED_ENCRYPTION_TAG'])
+def _(on):
+    return payloads.EncryptResponsePayload(unique_identifier='1', data=b'0123456789abcdef', iv_counter_nonce=b'\1' * 12,
+                                           auth_tag=var(b'tagtagtagtagtagt', b'gatgatgatgatgatg') if 'AUTHENTICATED_ENCRYPTION_TAG' in on else None)
+
+
+@recipe(payloads.DecryptRequestPayload, ['AUTHENTICATED_ENCRYPTION_ADDITIONAL_DATA', 'AUTHENTICATED_ENCRYPTION_TAG'])
+def _(on):
+    return payloads.DecryptRequestPayload(unique_identifier='1', data=b'0123456789abcdef', iv_counter_nonce=b'\1' * 12,
+                                          auth_additional_data=var(b'aad', b'bbd') if 'AUTHENTICATED_ENCRYPTION_ADDITIONAL_DATA' in on else None,
+                                          auth_tag=var(b'tagtagtagtagtagt', b'gatgatgatgatgatg') if 'AUTHENTICATED_ENCRYPTION_TAG' in on else None)
+
+
+@recipe(payloads.DeleteAttributeRequestPayload, ['ATTRIBUTE_NAME', 'ATTRIBUTE_INDEX', 'CURRENT_ATTRIBUTE'])
+def _(on):
+    return payloads.DeleteAttributeRequestPayload(
+        unique_identifier='1', attribute_name=var('Name', 'Object Group'), attribute_index=var(1, 2) if 'ATTRIBUTE_INDEX' in on else None,
+        current_attribute=O.CurrentAttribute(attribute=name_value()))
+
+
+@recipe(payloads.DeleteAttributeResponsePayload, ['ATTRIBUTE'])
+def _(on):
+    return payloads.DeleteAttributeResponsePayload(unique_identifier='1', attribute=kdrv.attr('NAME', kdrv.name_value(var('n1', 'n2')), 0))
+
+
+@recipe(payloads.ModifyAttributeRequestPayload, ['ATTRIBUTE', 'CURRENT_ATTRIBUTE', 'NEW_ATTRIBUTE'])
+def _(on):
+    return payloads.ModifyAttributeRequestPayload(
+        unique_identifier='1', attribute=kdrv.attr('NAME', kdrv.name_value(var('n1', 'n2')), 0),
+        current_attribute=O.CurrentAttribute(attribute=name_value()) if 'CURRENT_ATTRIBUTE' in on else None,
+        new_attribute=O.NewAttribute(attribute=name_value()))
+
+
+@recipe(payloads.ModifyAttributeResponsePayload, ['ATTRIBUTE'])
+def _(on):
+    return payloads.ModifyAttributeResponsePayload(unique_identifier='1', attribute=kdrv.attr('NAME', kdrv.name_value(var('n1', 'n2')), 0))
+
+
+@recipe(payloads.LocateRequestPayload, ['ATTRIBUTE', 'ATTRIBUTES'])
+def _(on):
+    return payloads.LocateRequestPayload(maximum_items=3, attributes=[kdrv.attr('CRYPTOGRAPHIC_LENGTH', var(128, 256))])
+
+
+@recipe(payloads.GetAttributesRequestPayload, ['ATTRIBUTE_REFERENCE'])
+def _(on):
+    return payloads.GetAttributesRequestPayload(unique_identifier='1', attribute_names=var(['Cryptographic Length', 'State'], ['Name']))
+
+
+@recipe(payloads.GetAttributesResponsePayload, ['ATTRIBUTE', 'ATTRIBUTES'])
+def _(on):
+    return payloads.GetAttributesResponsePayload(unique_identifier='1', attributes=[kdrv.attr('CRYPTOGRAPHIC_LENGTH', var(128, 256))])
+
+
+@recipe(payloads.GetAttributeListResponsePayload, ['ATTRIBUTE_REFERENCE'])
+def _(on):
+    return payloads.GetAttributeListResponsePayload(unique_identifier='1', attribute_names=var(['Cryptographic Length', 'State'], ['Name']))
+
+
+QR = ['EXTENSION_INFORMATION', 'ATTESTATION_TYPE', 'RNG_PARAMETERS', 'PROFILE_INFORMATION', 'VALIDATION_INFORMATION',
+      'CAPABILITY_INFORMATION', 'CLIENT_REGISTRATION_METHOD', 'DEFAULTS_INFORMATION', 'PROTECTION_STORAGE_MASK']
+
+
+def rng_parameters():
+    return O.RNGParameters(rng_algorithm=var(enums.RNGAlgorithm.FIPS186_2, enums.RNGAlgorithm.DRBG))
+
+
+def profile_information():
+    return O.ProfileInformation(profile_name=enums.ProfileName.BASELINE_SERVER_BASIC_KMIPv12, server_uri='https://example.com', server_port=var(5696, 5697))
+
+
+def validation_information():
+    return O.ValidationInformation(validation_authority_type=enums.ValidationAuthorityType.COMMON_CRITERIA,
+                                   validation_version_major=1, validation_type=enums.ValidationType.HYBRID, validation_level=var(5, 6))
+
+
+def capability_information(on=('BATCH_UNDO_CAPABILITY', 'BATCH_CONTINUE_CAPABILITY')):
+    return O.CapabilityInformation(streaming_capability=False, asynchronous_capability=var(True, False),
+                                   batch_undo_capability=var(True, False) if 'BATCH_UNDO_CAPABILITY' in on else None,
+                                   batch_continue_capability=var(True, False) if 'BATCH_CONTINUE_CAPABILITY' in on else None)
+
+
+def object_defaults():
+    return O.ObjectDefaults(object_type=enums.ObjectType.SYMMETRIC_KEY, attributes=O.Attributes(
+        attributes=[A.CryptographicAlgorithm(var(enums.CryptographicAlgorithm.AES, enums.CryptographicAlgorithm.RSA))]))
+
+
+def defaults_information():
+    return O.DefaultsInformation(object_defaults=[object_defaults()])
+
+
+@recipe(payloads.QueryResponsePayload, QR)
+def _(on):
+    g = lambda t, f: f() if t in on else None
+    return payloads.QueryResponsePayload(
+        operations=[enums.Operation.CREATE, enums.Operation.GET], object_types=[enums.ObjectType.SYMMETRIC_KEY],
+        vendor_identification='vendor',
+        extension_information=[O.ExtensionInformation(extension_name=O.ExtensionName(var('ACME', 'EMCA')))] if 'EXTENSION_INFORMATION' in on else None,
+        attestation_types=[var(enums.AttestationType.TPM_QUOTE, enums.AttestationType.SAML_ASSERTION)] if 'ATTESTATION_TYPE' in on else None,
+        rng_parameters=[rng_parameters()] if 'RNG_PARAMETERS' in on else None,
+        profile_information=[profile_information()] if 'PROFILE_INFORMATION' in on else None,
+        validation_information=[validation_information()] if 'VALIDATION_INFORMATION' in on else None,
+        capability_information=[capability_information()] if 'CAPABILITY_INFORMATION' in on else None,
+        client_registration_methods=[var(enums.ClientRegistrationMethod.CLIENT_GENERATED, enums.ClientRegistrationMethod.CLIENT_REGISTERED)] if 'CLIENT_REGISTRATION_METHOD' in on else None,
+        defaults_information=g('DEFAULTS_INFORMATION', defaults_information),
+        protection_storage_masks=var([3, 768], [1, 2]) if 'PROTECTION_STORAGE_MASK' in on else None)
+
+
+@recipe(O.CapabilityInformation, ['BATCH_UNDO_CAPABILITY', 'BATCH_CONTINUE_CAPABILITY'])
+def _(on):
+    return capability_information(on)
+
+
+@recipe(messages.ResponseHeader, ['SERVER_HASHED_PASSWORD'])
+def _(on):
+    return messages.ResponseHeader(protocol_version=contents.ProtocolVersion(*(ver_of(CUR[0]) if CUR[0] else (1, 0))), time_stamp=contents.TimeStamp(1600000000),
+                                   batch_count=contents.BatchCount(1),
+                                   server_hashed_password=var(b'\x0f', b'\x0e') * 32 if 'SERVER_HASHED_PASSWORD' in on else None)
+
+
+@recipe(messages.RequestBatchItem, ['EPHEMERAL'])
+def _(on):
+    return messages.RequestBatchItem(operation=contents.Operation(enums.Operation.ACTIVATE),
+                                     request_payload=payloads.ActivateRequestPayload(unique_identifier=A.UniqueIdentifier('1')),
+                                     ephemeral=var(True, False) if 'EPHEMERAL' in on else None)
+
+
+# whole structures that exist only from some version on
+STRUCTS = {
+    'Attributes': (O.Attributes, lambda: O.Attributes(attributes=[A.CryptographicAlgorithm(enums.CryptographicAlgorithm.AES)])),
+    'CurrentAttribute': (O.CurrentAttribute, lambda: O.CurrentAttribute(attribute=name_value())),
+    'NewAttribute': (O.NewAttribute, lambda: O.NewAttribute(attribute=name_value())),
+    'AttributeReference': (O.AttributeReference, lambda: O.AttributeReference(vendor_identification='v', attribute_name='Name')),
+    'ProtectionStorageMasks': (lambda: O.ProtectionStorageMasks(tag=T.PROTECTION_STORAGE_MASKS), psm),
+    'ObjectDefaults': (O.ObjectDefaults, object_defaults),
+    'DefaultsInformation': (O.DefaultsInformation, defaults_information),
+    'SetAttributeRequestPayload': (payloads.SetAttributeRequestPayload, lambda: payloads.SetAttributeRequestPayload(
+        unique_identifier='1', new_attribute=O.NewAttribute(attribute=name_value()))),
+    'SetAttributeResponsePayload': (payloads.SetAttributeResponsePayload, lambda: payloads.SetAttributeResponsePayload(unique_identifier='1')),
+    'RNGParameters': (O.RNGParameters, rng_parameters),
+    'ProfileInformation': (O.ProfileInformation, profile_information),
+    'ValidationInformation': (O.ValidationInformation, validation_information),
+    'CapabilityInformation': (O.CapabilityInformation, capability_information),
+}
+
+# independent oracle: tag -> version of the specification that introduced the field (harness-side copy, by tag only)
+SPEC_FIELD_MIN = {
+    'ATTRIBUTES': (2, 0), 'COMMON_ATTRIBUTES': (2, 0), 'PRIVATE_KEY_ATTRIBUTES': (2, 0), 'PUBLIC_KEY_ATTRIBUTES': (2, 0),
+    'PROTECTION_STORAGE_MASKS': (2, 0), 'COMMON_PROTECTION_STORAGE_MASKS': (2, 0), 'PRIVATE_PROTECTION_STORAGE_MASKS': (2, 0),
+    'PUBLIC_PROTECTION_STORAGE_MASKS': (2, 0), 'CURRENT_ATTRIBUTE': (2, 0), 'NEW_ATTRIBUTE': (2, 0), 'ATTRIBUTE_REFERENCE': (2, 0),
+    'EPHEMERAL': (2, 0), 'SERVER_HASHED_PASSWORD': (2, 0), 'DEFAULTS_INFORMATION': (2, 0), 'PROTECTION_STORAGE_MASK': (2, 0),
+    'AUTHENTICATED_ENCRYPTION_ADDITIONAL_DATA': (1, 4), 'AUTHENTICATED_ENCRYPTION_TAG': (1, 4),
+    'BATCH_UNDO_CAPABILITY': (1, 4), 'BATCH_CONTINUE_CAPABILITY': (1, 4),
+    'EXTENSION_INFORMATION': (1, 1), 'ATTESTATION_TYPE': (1, 2), 'RNG_PARAMETERS': (1, 3), 'PROFILE_INFORMATION': (1, 3),
+    'VALIDATION_INFORMATION': (1, 3), 'CAPABILITY_INFORMATION': (1, 3), 'CLIENT_REGISTRATION_METHOD': (1, 3)}
+SPEC_STRUCT_MIN = {'Attributes': (2, 0), 'CurrentAttribute': (2, 0), 'NewAttribute': (2, 0), 'AttributeReference': (2, 0),
+                   'ProtectionStorageMasks': (2, 0), 'ObjectDefaults': (2, 0), 'DefaultsInformation': (2, 0),
+                   'SetAttributeRequestPayload': (2, 0), 'SetAttributeResponsePayload': (2, 0), 'RNGParameters': (1, 3),
+                   'ProfileInformation': (1, 3), 'ValidationInformation': (1, 3), 'CapabilityInformation': (1, 3)}
+
+
+def tag_names(buf):
+    out = []
+    for tag, _ in children(buf):
+        try:
+            n = T(tag).name
+        except ValueError:
+            n = hex(tag)
+        out.append(n)
+    return out
+
+
+def try_encode(obj, kv):
+    try:
+        if isinstance(obj, messages.ResponseHeader):
+            obj.protocol_version = contents.ProtocolVersion(*ver_of(kv))
+        return encode(obj, kv), None
+    except Exception as e:          # noqa - any refusal counts
+        return None, e
+
+
+def try_decode(factory, data, kv):
+    try:
+        decode(factory, data, kv)
+        return True, None
+    except Exception as e:          # noqa
+        return False, e
 
 
 def field_cases(ctx, cases, meta):
-    return
+    for name, rc in RECIPES.items():
+        tags = rc['tags']
+        full = rc['build'](set(tags))
+        enc = {}
+        for kv in KV:
+            v = ver_of(kv)
+            data, err = try_encode(rc['build'](set(tags)), kv)
+            enc[kv] = data
+            emitted = sorted(set(t for t in (tag_names(data) if data else []) if t in tags))
+            cases.append('CFieldWrite %s %s %s %s %s' % (cp.string(name), cver(v), cp.lst(sorted(tags), cp.string),
+                                                        cp.lst(emitted, cp.string), cp.boolean(data is None)))
+            meta.append(('field-write', name, v))
+            ctx.case_seen(('field-write', name, v, tuple(emitted)))
+            ctx.count('field.write.%s' % ('raised' if data is None else 'ok'))
+            for t in emitted:
+                if SPEC_FIELD_MIN.get(t, (1, 0)) > v:
+                    ctx.violation({'class': 'field-sent', 'payload': name, 'tag': t, 'version': '%d.%d' % v},
+                                  {'class': name, 'version': v, 'children_tags': tag_names(data), 'hex': data.hex()[:400]},
+                                  '%s encoded under KMIP %d.%d contains %s (introduced in KMIP %d.%d)' % (
+                                      name, v[0], v[1], t, SPEC_FIELD_MIN[t][0], SPEC_FIELD_MIN[t][1]))
+        # read: splice each version-dependent item (two different contents) into an encoding that is valid without it;
+        # the reader has accepted the field when it decodes and the two contents give different objects
+        def build(on, variant):
+            VARIANT[0] = variant
+            try:
+                return rc['build'](on)
+            finally:
+                VARIANT[0] = 0
+
+        def item_of(t, variant):
+            for kv in KV:
+                d, _ = try_encode(build({t}, variant), kv)
+                if d is None:
+                    continue
+                ch = children(d)
+                for k, (tag, raw) in enumerate(ch):
+                    if tag == T[t].value:
+                        return raw, (ch[k - 1][0] if k else None)
+            return None
+
+        def differs(a, b):
+            try:
+                if a == b:
+                    return False
+            except Exception:        # noqa
+                pass
+            for kv2 in KV:
+                ea, eb = try_encode(a, kv2)[0], try_encode(b, kv2)[0]
+                if ea != eb:
+                    return True
+            return False
+
+        for t in tags:
+            src = [item_of(t, 0), item_of(t, 1)]
+            if None in src or src[0][0] == src[1][0]:
+                ctx.disagreement('c16', {'field-read: no encoding emits the tag in two variants': (name, t)})
+                continue
+            for kv in KV:
+                v = ver_of(kv)
+                decoded = []
+                how = None
+                for variant in (0, 1):
+                    base, _ = try_encode(build(set(), variant), kv)
+                    if base is None:
+                        decoded = None
+                        break
+                    ch = children(base)
+                    if any(tag == T[t].value for tag, _ in ch):
+                        spliced = base
+                        how = 'present'
+                    else:
+                        raw, pred = src[variant]
+                        pos = 0
+                        for k, (tag, _) in enumerate(ch):
+                            if tag == pred:
+                                pos = k + 1
+                        spliced = rebuild(base, ch[:pos] + [(T[t].value, raw)] + ch[pos:])
+                        how = 'spliced'
+                    try:
+                        decoded.append((decode(rc['cls'], spliced, kv), spliced))
+                    except Exception:        # noqa
+                        decoded.append(None)
+                if decoded is None:
+                    continue
+                if None in decoded:
+                    ok, result = False, 'rejected'
+                elif how == 'present' or differs(decoded[0][0], decoded[1][0]):
+                    ok, result = True, 'accepted'
+                else:
+                    ok, result = False, 'ignored'
+                cases.append('CFieldRead %s %s %s %s' % (cp.string(name), cver(v), cp.string(t), cp.boolean(ok)))
+                meta.append(('field-read', name, t, v, how, result))
+                ctx.case_seen(('field-read', name, t, v))
+                ctx.count('field.read.%s.%s' % (how, result))
+                if ok and SPEC_FIELD_MIN.get(t, (1, 0)) > v:
+                    ctx.violation({'class': 'field-accepted', 'payload': name, 'tag': t, 'version': '%d.%d' % v},
+                                  {'class': name, 'version': v, 'tag': t, 'hex': decoded[0][1].hex()[:400]},
+                                  '%s.read under KMIP %d.%d accepts %s (introduced in KMIP %d.%d)' % (
+                                      name, v[0], v[1], t, SPEC_FIELD_MIN[t][0], SPEC_FIELD_MIN[t][1]))
+    # structures
+    for name, (factory, build) in STRUCTS.items():
+        newest, _ = try_encode(build(), KV[-1])
+        for kv in KV:
+            v = ver_of(kv)
+            data, err = try_encode(build(), kv)
+            cases.append('CStruct "write" %s %s %s' % (cp.string(name), cver(v), cp.boolean(isinstance(err, kexc.VersionNotSupported))))
+            meta.append(('struct-write', name, v))
+            ctx.case_seen(('struct-write', name, v))
+            if data is not None and SPEC_STRUCT_MIN[name] > v:
+                ctx.violation({'class': 'field-sent', 'payload': name, 'version': '%d.%d' % v}, {'class': name, 'version': v, 'hex': data.hex()[:400]},
+                              '%s can be encoded under KMIP %d.%d' % (name, v[0], v[1]))
+            if newest is not None:
+                ok, err = try_decode(factory, newest, kv)
+                refused = isinstance(err, kexc.VersionNotSupported)
+                cases.append('CStruct "read" %s %s %s' % (cp.string(name), cver(v), cp.boolean(refused)))
+                meta.append(('struct-read', name, v))
+                ctx.case_seen(('struct-read', name, v))
+                ctx.count('field.struct.%s' % ('refused' if refused else 'read'))
+                if ok and SPEC_STRUCT_MIN[name] > v:
+                    ctx.violation({'class': 'field-accepted', 'payload': name, 'version': '%d.%d' % v}, {'class': name, 'version': v, 'hex': newest.hex()[:400]},
+                                  '%s can be decoded under KMIP %d.%d' % (name, v[0], v[1]))
+    # enums.is_attribute
+    for tag in T:
+        for kv in KV:
+            cases.append('CAttrTag %s %s %s' % (cp.string(tag.name), cver(ver_of(kv)), cp.boolean(bool(enums.is_attribute(tag, kmip_version=kv)))))
+            meta.append(('attr-tag', tag.name, ver_of(kv)))
+    ctx.count('field.is_attribute', len(list(T)) * len(KV))
+    # Attributes structure: a later attribute is neither written nor read under an earlier 2.x ... only 2.0 exists, so the
+    # per-attribute gate is exercised through is_attribute above and through TemplateAttribute -> Attributes conversion here
+    for tagname, build in (('SENSITIVE', lambda: P.Boolean(True, tag=T.SENSITIVE)),
+                           ('OPERATION_POLICY_NAME', lambda: P.TextString('default', tag=T.OPERATION_POLICY_NAME))):
+        data, err = try_encode(O.Attributes(attributes=[build()]), enums.KMIPVersion.KMIP_2_0)
+        allowed = bool(enums.is_attribute(T[tagname], kmip_version=enums.KMIPVersion.KMIP_2_0))
+        if (data is not None) != allowed:
+            ctx.disagreement('c16', {'Attributes.write and is_attribute differ': tagname})
